@@ -81,6 +81,25 @@ Section Ops.
   Definition add_constant (a : T) (d : list T) : list T := map (fun v => nadd O v a) d.
   Definition remove_small_values (a : T) (d : list T) : list T := map (fun v => if nltb O v a then a else v) d.
 
+  (* bin_distance_from_boundaries(values): the smallest distance, in bins, from the boundaries of the non-periodic
+     dimensions; negative when a value lies outside (scalar non-periodic variables: sqrt(dist2) = |difference|) *)
+  Definition signed_bins (below : bool) (a b w : T) : T :=
+    let dd := ndiv O (nabs O (nsub O a b)) w in if below then nneg O dd else dd.
+  Fixpoint bin_distance (per : list bool) (lower upper w x : list T) (acc : T) : T :=
+    match per, lower, upper, w, x with
+    | p :: ps, l :: ls, u :: us, wi :: ws, xi :: xs =>
+        if p then bin_distance ps ls us ws xs acc
+        else
+          let dl := signed_bins (nltb O xi l) xi l wi in
+          let du := signed_bins (nltb O u xi) xi u wi in
+          let acc := if nltb O dl acc then dl else acc in
+          let acc := if nltb O du acc then du else acc in
+          bin_distance ps ls us ws xs acc
+    | _, _, _, _, _ => acc
+    end.
+  Definition bin_distance_from_boundaries (per : list bool) (lower upper w x : list T) : T :=
+    bin_distance per lower upper w x (nofZ O 10000000000000000).
+
   (* init_from_colvars(add_extra_bin = true): values at the edges instead of the centres of the bins *)
   Definition extra_bin_dim (periodic : bool) (l u w : T) : T * T :=
     let h := nmul O (nhalf O) w in
